@@ -228,13 +228,14 @@ func TestWosReplay(t *testing.T) {
 				add("signal-sent-before-the-deadline")
 			}
 			if killed {
-				if !sc.deadline || elapsed < deadline-slack {
+				switch {
+				case !sc.deadline || elapsed < deadline-slack:
 					add("kill-sent-before-the-deadline")
-				}
-				if quitAt < 0 {
-					add("kill-without-interrupt-first")
-				} else if elapsed < quitAt+killDelay-slack {
+				case elapsed < deadline+killDelay-slack:
+					// (a SIGQUIT followed at once by SIGKILL may never be logged by the child)
 					add("kill-before-the-grace-period-elapsed")
+				case quitAt < 0:
+					add("kill-without-interrupt-first")
 				}
 			}
 			mu.Lock()
@@ -299,6 +300,8 @@ var (
 	Flags                                                           []string
 	Mismatch                                                        []string
 	FreeRun                                                         bool
+	ChildFire                                                       = make(chan struct{})
+	ChildCreated, ChildFired, ChildCancelled                        bool
 	gates                                                           = map[string]chan chan struct{}{}
 	// environment constants of the counterexample
 	DeadlineSet, ExitsByItself, IgnoresInterrupt, SelfFails bool
@@ -357,6 +360,11 @@ func Env(name string) {
 			TimerFired = true
 			TimerC <- time.Now()
 		}
+	case "derived-timeout-fires":
+		if ChildCreated && !ChildFired {
+			ChildFired = true
+			close(ChildFire)
+		}
 	}
 }
 
@@ -373,6 +381,8 @@ func EnabledEnv() string {
 		return "process-exits-on-interrupt"
 	case TimerStarted && !TimerFired && !TimerStopped:
 		return "timer-fires"
+	case ChildCreated && !ChildFired && !ChildCancelled:
+		return "derived-timeout-fires"
 	case Running && ExitsByItself:
 		return "process-exits-by-itself"
 	}
@@ -385,6 +395,8 @@ package context
 
 import (
 	"errors"
+	"sync"
+	realtime "time"
 
 	"wosr/ctl"
 )
@@ -394,8 +406,14 @@ type Context interface {
 	Err() error
 }
 
-var DeadlineExceeded = errors.New("context deadline exceeded")
+type CancelFunc func()
 
+var (
+	DeadlineExceeded = errors.New("context deadline exceeded")
+	Canceled         = errors.New("context canceled")
+)
+
+// C is the per-run context.
 type C struct{}
 
 func (C) Done() <-chan struct{} { return ctl.CtxDone }
@@ -408,6 +426,72 @@ func (C) Err() error {
 		return DeadlineExceeded
 	}
 	return nil
+}
+
+type bg struct{}
+
+func (bg) Done() <-chan struct{} { return nil }
+func (bg) Err() error {
+	done := ctl.Enter("Err")
+	defer done()
+	return nil
+}
+
+func Background() Context { return bg{} }
+func TODO() Context       { return bg{} }
+
+type child struct {
+	parent Context
+	done   chan struct{}
+	cancel chan struct{}
+	once   sync.Once
+}
+
+func (c *child) Done() <-chan struct{} { return c.done }
+func (c *child) Err() error {
+	done := ctl.Enter("Err")
+	defer done()
+	ctl.Mu.Lock()
+	defer ctl.Mu.Unlock()
+	_, run := c.parent.(C)
+	switch {
+	case ctl.ChildFired || run && ctl.CtxFired:
+		return DeadlineExceeded
+	case ctl.ChildCancelled:
+		return Canceled
+	}
+	return nil
+}
+
+// WithTimeout: done when the parent is done, when the environment fires the
+// derived timeout, or when cancelled.
+func WithTimeout(parent Context, d realtime.Duration) (Context, CancelFunc) {
+	ctl.Mu.Lock()
+	if ctl.ChildCreated {
+		ctl.Flag("second-derived-context")
+	}
+	if d <= 0 {
+		ctl.Flag("timer-with-nonpositive-delay")
+	}
+	ctl.ChildCreated = true
+	ctl.Mu.Unlock()
+	c := &child{parent: parent, done: make(chan struct{}), cancel: make(chan struct{})}
+	go func() {
+		select {
+		case <-parent.Done():
+		case <-ctl.ChildFire:
+		case <-c.cancel:
+		}
+		close(c.done)
+	}()
+	return c, func() {
+		c.once.Do(func() {
+			ctl.Mu.Lock()
+			ctl.ChildCancelled = true
+			ctl.Mu.Unlock()
+			close(c.cancel)
+		})
+	}
 }
 """
 
@@ -444,7 +528,7 @@ func deliver(kill bool) error {
 		if !ctl.IntSent {
 			ctl.Flag("kill-without-interrupt-first")
 		}
-		if !ctl.TimerFired {
+		if !ctl.TimerFired && !ctl.ChildFired {
 			ctl.Flag("kill-before-the-grace-period-elapsed")
 		}
 		ctl.KillSent = true
